@@ -87,6 +87,13 @@ def fd_tol(d, out):
     return 1e-6 * float(np.max(np.abs(d))) + 1e-8 * float(np.max(np.abs(out))) + 1e-300
 
 
+def fd_roundoff(h, u, out):
+    """round-off of a central difference quotient: the two evaluations carry absolute rounding errors of about
+    eps * (largest magnitude met on the way: input or output), divided by 2h.  Matters when the output has decayed
+    to the rounding level of the input (strongly damped steps), where the derivative itself is ~0."""
+    return 8 * 2.2e-16 * max(float(np.max(np.abs(u))), float(np.max(np.abs(out)))) / h
+
+
 def check(case):
     res = R()
     spec = case["spec"]
@@ -126,7 +133,7 @@ def check(case):
         h = 1e-6 * max(1.0, float(np.max(np.abs(u))))
         fd = (np.asarray(f(ju + h * jt)) - np.asarray(f(ju - h * jt))) / (2 * h)
         if np.all(np.isfinite(Jt)) and np.all(np.isfinite(fd)):
-            res.claim("jvp_equals_central_differences:" + name, float(np.max(np.abs(Jt - fd))), fd_tol(fd, prim), key=k + ":jvp_value")
+            res.claim("jvp_equals_central_differences:" + name, float(np.max(np.abs(Jt - fd))), fd_tol(fd, prim) + fd_roundoff(h, u, prim), key=k + ":jvp_value")
         wv = jnp.asarray(rng.standard_normal(prim.shape))
         ok, vj = res.lib("vjp:" + name, lambda f=f, wv=wv: jax.vjp(f, ju)[1](wv)[0], key=k + ":vjp")
         if ok:
@@ -136,7 +143,10 @@ def check(case):
                 a = float(np.sum(np.asarray(wv) * Jt))
                 b = float(np.sum(vj * t))
                 sc = float(np.sqrt(np.sum(np.asarray(wv) ** 2) * np.sum(Jt**2))) + float(np.sqrt(np.sum(vj**2) * np.sum(t**2)))
-                res.claim("vjp_is_adjoint_of_jvp:" + name, abs(a - b), 1e-11 * sc + 1e-300, key=k + ":adjoint")
+                # floor: both sums carry rounding errors relative to the input scale even when the map has damped
+                # the derivative itself to (almost) nothing
+                afloor = 1e-14 * float(np.sqrt(np.sum(np.asarray(wv) ** 2) * np.sum(t**2))) * max(1.0, float(np.max(np.abs(u))))
+                res.claim("vjp_is_adjoint_of_jvp:" + name, abs(a - b), 1e-11 * sc + afloor + 1e-300, key=k + ":adjoint")
         if name == "step":
             res.nontrivial = bool(np.sqrt(np.sum(Jt**2)) > 1e-9 * np.sqrt(np.sum(t**2)))
             if fam in LINEAR:
@@ -252,7 +262,7 @@ def p_check(case):
         h = 1e-5 / max(1.0, zmax / 10.0)
         fd = (np.asarray(f(jnp.asarray(base + h * dv))) - np.asarray(f(jnp.asarray(base - h * dv)))) / (2 * h)
         if np.all(np.isfinite(Jd)) and np.all(np.isfinite(fd)):
-            res.claim("param_jvp_equals_central_differences", float(np.max(np.abs(Jd - fd))), fd_tol(fd, prim) * 100, key=k + ":jvp_value")
+            res.claim("param_jvp_equals_central_differences", float(np.max(np.abs(Jd - fd))), fd_tol(fd, prim) * 100 + fd_roundoff(h, u, prim), key=k + ":jvp_value")
             res.nontrivial = bool(np.max(np.abs(fd)) > 1e-9)
     w = jnp.asarray(rng.standard_normal(prim.shape))
     ok, g = res.lib("grad_param", lambda: jax.grad(lambda v: jnp.sum(w * f(v)))(jb), key=k + ":grad")
@@ -263,12 +273,12 @@ def p_check(case):
             a = float(np.sum(np.asarray(w) * Jd))
             b = float(np.sum(g * dv))
             sc = float(np.sqrt(np.sum(np.asarray(w) ** 2) * np.sum(Jd**2))) + abs(b)
-            floor = 1e-13 * float(np.sqrt(np.sum(np.asarray(w) ** 2))) * float(np.max(np.abs(prim))) * (float(np.max(np.abs(dv))) / max(float(np.max(np.abs(base))), 1e-300) if base.ndim else 1.0)
+            floor = 1e-13 * float(np.sqrt(np.sum(np.asarray(w) ** 2))) * max(float(np.max(np.abs(prim))), float(np.max(np.abs(u)))) * (float(np.max(np.abs(dv))) / max(float(np.max(np.abs(base))), 1e-300) if base.ndim else 1.0)
             res.claim("param_reverse_equals_forward", abs(a - b), 1e-10 * sc + floor + 1e-300, key=k + ":adjoint")
     return res
 
 
 SUBS = [
-    Sub("state_derivatives", check, strata=strata, strategy=strategy, n=(1, 4)),
-    Sub("parameter_derivatives", p_check, strata=p_strata, strategy=p_strategy, frames=p_frames, n=(1, 3)),
+    Sub("state_derivatives", check, strata=strata, strategy=strategy, n=(1, 2)),
+    Sub("parameter_derivatives", p_check, strata=p_strata, strategy=p_strategy, frames=p_frames, n=(1, 1)),
 ]
